@@ -17,6 +17,7 @@ import (
 	"verifharness/engines/c06"
 	"verifharness/engines/c08"
 	"verifharness/engines/c10"
+	"verifharness/engines/c11"
 	"verifharness/engines/c13"
 	"verifharness/engines/c14"
 	"verifharness/engines/c15"
@@ -37,6 +38,7 @@ var engines = map[string]func(*gen.Ctx) error{
 	"c09": pipe.RunAs("C09"),
 	"c08": c08.Run,
 	"c10": c10.Run,
+	"c11": c11.Run,
 	"c13": c13.Run,
 	"c14": c14.Run,
 	"c15": c15.Run,
